@@ -192,7 +192,7 @@ func (m *Muxer) WriteData(d *MuxerData) (int, error) {
 		pktLen := 1 + mpegTsPacketHeaderSize // sync byte + header
 		pkt := Packet{
 			Header: PacketHeader{
-				ContinuityCounter:         uint8(ctx.cc.inc()),
+				ContinuityCounter:         uint8(ctx.cc.get()),
 				HasAdaptationField:        writeAf,
 				HasPayload:                false,
 				PayloadUnitStartIndicator: false,
@@ -226,7 +226,15 @@ func (m *Muxer) WriteData(d *MuxerData) (int, error) {
 			pkt.Header.HasPayload = true
 		}
 
-		if pkt.Header.HasPayload {
+		if !pkt.Header.HasPayload {
+			// adaptation field only: the continuity counter is not incremented
+			n, err = writePacket(m.bitsWriter, &pkt, m.packetSize)
+			if err != nil {
+				return bytesWritten, err
+			}
+			bytesWritten += n
+		} else {
+			pkt.Header.ContinuityCounter = uint8(ctx.cc.inc())
 			m.buf.Reset()
 			if d.PES.Header.StreamID == 0 {
 				d.PES.Header.StreamID = ctx.es.StreamType.ToPESStreamID()
